@@ -1,0 +1,110 @@
+//go:build verif
+
+// Contracts for package data (comment-only; read by /verif/govc, never compiled
+// into the library: the build tag `verif` is only set by the verifier).
+
+package data
+
+//@ import "sort"
+//@ props C15
+
+//@ -- representation invariant: strictly ascending, hence duplicate-free
+//@ pure func sortedStrict(a []int) bool = forall i, j int :: 0 <= i && i < j && j < len(a) ==> a[i] < a[j]
+//@ pure func inv(s IntSet) bool = sortedStrict(s.data)
+//@ -- abstract view: x is a member of the set held in slice a
+//@ pure func member(a []int, x int) bool = exists k int :: 0 <= k && k < len(a) && a[k] == x
+
+//@ pure func memberN(a []int, n int, x int) bool = exists k int :: 0 <= k && k < n && a[k] == x
+
+//@ assume func sort.SearchInts(a []int, x int) (r int)
+//@   ensures 0 <= r && r <= len(a)
+//@   ensures r == 0 || a[r-1] < x
+//@   ensures r == len(a) || a[r] >= x
+//@   assigns nothing
+
+//@ func (s IntSet) Len() (r int)
+//@   ensures r == len(s.data)
+//@   assigns nothing
+
+//@ func (s *IntSet) insertValue(v int)
+//@   requires s != nil && inv(*s)
+//@   ensures  inv(*s)
+//@   ensures  [grow] len(s.data) == old(len(s.data)) || len(s.data) == old(len(s.data)) + 1
+//@   ensures  [shape-old] forall k int :: 0 <= k && k < old(len(s.data)) ==> (old(s.data[k]) == s.data[k] || (k+1 < len(s.data) && old(s.data[k]) == s.data[k+1]))
+//@   ensures  [shape-new] forall k int :: 0 <= k && k < len(s.data) ==> (s.data[k] == v || (k < old(len(s.data)) && s.data[k] == old(s.data[k])) || (k >= 1 && s.data[k] == old(s.data[k-1])))
+//@   ensures  [has-v] member(s.data, v)
+//@   ensures  [member] forall x int :: member(s.data, x) == (old(member(s.data, x)) || x == v)
+//@   ensures  [inplace] old(member(s.data, v)) ==> same(s.data, old(s.data))
+//@   ensures  [fresh-or-inplace] fresh(s.data) || array(s.data) == old(array(s.data))
+//@   assigns  s.data, cells(s.data)
+
+//@ func (s IntSet) Insert(v int) (r IntSet)
+//@   requires inv(s)
+//@   ensures  inv(r)
+//@   ensures  [member] forall x int :: member(r.data, x) == (member(s.data, x) || x == v)
+//@   assigns  nothing
+
+//@ func NewIntSet(values ...int) (r IntSet)
+//@   ensures  inv(r)
+//@   ensures  [member] forall x int :: member(r.data, x) == member(values, x)
+//@   assigns  nothing
+//@ loop 1 (i IntSet, n rangeindex)
+//@   invariant 0 <= n && n <= len(values)
+//@   invariant inv(i) && fresh(i.data)
+//@   invariant [member] forall x int :: member(i.data, x) == memberN(values, n, x)
+
+//@ func (a IntSet) Union(b IntSet) (r IntSet)
+//@   requires inv(a) && inv(b)
+//@   ensures  inv(r)
+//@   ensures  [member] forall x int :: member(r.data, x) == (member(a.data, x) || member(b.data, x))
+//@   assigns  nothing
+//@ loop 1 (i3 IntSet, n1 int, n2 int)
+//@   invariant 0 <= n1 && n1 <= len(a.data) && 0 <= n2 && n2 <= len(b.data)
+//@   invariant fresh(i3.data) && offset(i3.data) == 0 && len(i3.data) <= n1+n2 && cap(i3.data) == len(a.data)+len(b.data)
+//@   invariant sortedStrict(i3.data)
+//@   invariant [below-a] n1 < len(a.data) ==> forall k int :: 0 <= k && k < len(i3.data) ==> i3.data[k] < a.data[n1]
+//@   invariant [below-b] n2 < len(b.data) ==> forall k int :: 0 <= k && k < len(i3.data) ==> i3.data[k] < b.data[n2]
+//@   invariant [from] forall k int :: 0 <= k && k < len(i3.data) ==> memberN(a.data, n1, i3.data[k]) || memberN(b.data, n2, i3.data[k])
+//@   invariant [to-a] forall k int :: 0 <= k && k < n1 ==> member(i3.data, a.data[k])
+//@   invariant [to-b] forall k int :: 0 <= k && k < n2 ==> member(i3.data, b.data[k])
+//@   decreases len(a.data) + len(b.data) - n1 - n2
+
+//@ -- IntMap: abstract view is (dom(m.data, k), m.data[k]) with absent keys reading 0
+
+//@ func NewIntMap(d map[int]int) (r IntMap)
+//@   ensures  r.data != nil
+//@   ensures  d != nil ==> same(r.data, d)
+//@   ensures  d == nil ==> fresh(r.data) && len(r.data) == 0 && forall k int :: !dom(r.data, k)
+//@   assigns  nothing
+
+//@ func (m IntMap) clone() (r IntMap)
+//@   ensures  r.data != nil && fresh(r.data)
+//@   ensures  [dom] forall k int :: dom(r.data, k) == dom(m.data, k)
+//@   ensures  [val] forall k int :: r.data[k] == m.data[k]
+//@   assigns  nothing
+//@ loop 1 (i2 IntMap)
+//@   invariant i2.data != nil && fresh(i2.data)
+//@   invariant forall k int :: dom(i2.data, k) == (dom(m.data, k) && visited(k))
+//@   invariant forall k int :: visited(k) ==> i2.data[k] == m.data[k]
+
+//@ func (m IntMap) Get(key int) (r int)
+//@   ensures  r == m.data[key]
+//@   assigns  nothing
+
+//@ func (m IntMap) Keys() (r []int)
+//@   ensures  fresh(r) && len(r) == len(m.data)
+//@   ensures  [sound] forall j int :: 0 <= j && j < len(r) ==> dom(m.data, r[j])
+//@   ensures  [distinct] forall i, j int :: 0 <= i && i < j && j < len(r) ==> r[i] != r[j]
+//@   assigns  nothing
+//@ loop 1 (n int, keys []int)
+//@   invariant n == itercount() && 0 <= n && n <= len(keys)
+//@   invariant forall j int :: 0 <= j && j < n ==> dom(m.data, keys[j]) && visited(keys[j])
+//@   invariant forall i, j int :: 0 <= i && i < j && j < n ==> keys[i] != keys[j]
+
+//@ func (m IntMap) Inc(v int) (r IntMap)
+//@   requires m.data[v] < 9223372036854775807
+//@   ensures  r.data != nil && fresh(r.data)
+//@   ensures  [dom] forall k int :: dom(r.data, k) == (dom(m.data, k) || k == v)
+//@   ensures  [val] r.data[v] == m.data[v] + 1
+//@   ensures  [others] forall k int :: k != v ==> r.data[k] == m.data[k]
+//@   assigns  nothing
